@@ -19,8 +19,8 @@ What the code does, not what it should do:
   `FindMissing` (partition, ask every backend with a non-empty part, union or
   first error, errors prefixed with the shard key).
 
-Left out (not covered by C12): `GetFromComposite` (routes by the parent digest
-exactly like `Get`), `GetCapabilities` (round robin through `GetShard` of a
+`GetFromComposite` routes by the parent digest exactly like `Get`.
+Left out (not covered by C12): `GetCapabilities` (round robin through `GetShard` of a
 counter), buffers/streaming of `Get`/`Put` payloads, digest key formats.
 `sort.Slice` is not stable; with distinct hashes (which the constructor
 enforces) every correct sort yields the same list, so insertion sort is used.
@@ -118,12 +118,16 @@ structure Access (κ ε ν : Type) where
   get : Nat → Digest → Except ε ν
   put : Nat → Digest → ν → Except ε Unit
   fm : Nat → List Digest → Except ε (List Digest)
+  /-- `GetFromComposite(parent, child)` of backend `i` (defaults to "whatever `get` of the child gives";
+  theorems quantify over every function). -/
+  getc : Nat → Digest → Digest → Except ε ν := fun i _ c => get i c
 
 /-- A call received by backend `i`. -/
 inductive Call where
   | get (i : Nat) (d : Digest)
   | put (i : Nat) (d : Digest)
   | fm (i : Nat) (ds : List Digest)
+  | getc (i : Nat) (parent child : Digest)
 deriving Repr, DecidableEq
 
 variable {κ ε ν : Type}
@@ -141,6 +145,12 @@ def getOp (a : Access κ ε ν) (d : Digest) : List Call × Except (Option κ ×
 def putOp (a : Access κ ε ν) (d : Digest) (v : ν) : List Call × Except (Option κ × ε) Unit :=
   let i := shardOf a.sel d
   ([Call.put i d], annotate a i (a.put i d v))
+
+/-- `shardingBlobAccess.GetFromComposite`: the backend is chosen by the **parent** digest (the
+object that is stored; the child is only carved out of it), both digests are passed on. -/
+def getFromCompositeOp (a : Access κ ε ν) (parent child : Digest) : List Call × Except (Option κ × ε) ν :=
+  let i := shardOf a.sel parent
+  ([Call.getc i parent child], annotate a i (a.getc i parent child))
 
 /-- The per-backend parts of a digest list, empty parts dropped (`digests.Length() > 0`). -/
 def asked (route : Digest → Nat) (n : Nat) (ds : List Digest) : List (Nat × List Digest) :=
